@@ -124,6 +124,26 @@ def r10a(ctx, repo):
             want = "_vals" if timed else "vals"
             ctx.check(bc[timed][0] == ba[timed][0] == want, "R10a", app, la, "%s compartments: %s captured and restored" % ("timed" if timed else "ordinary", want), "%s compartments are captured from `%s` but restored into `%s`: the elapsed-time structure is %s" % ("timed" if timed else "ordinary", bc[timed][0], ba[timed][0], "lost" if timed else "invented"))
             ctx.check(bc[timed][1] == ba[timed][1], "R10a", app, la, "same rows captured and restored (%s)" % bc[timed][1], "rows `%s` are captured but rows `%s` restored" % (bc[timed][1], ba[timed][1]))
+    # every restore is the saved entry itself, unreduced, and depends only on the compartment kind and on the key being present
+    vals_attr = "%s.values" % K.self_name(app)
+    nrest = 0
+    for st in ast.walk(la):
+        tgt = st.targets[0] if isinstance(st, ast.Assign) and len(st.targets) == 1 else (st.target if isinstance(st, ast.AugAssign) else None)
+        if tgt is None or not any(isinstance(x, ast.Subscript) and ast.unparse(x.value) == vals_attr for x in ast.walk(st.value)):
+            continue
+        nrest += 1
+        plain = isinstance(st, ast.Assign) and isinstance(st.value, ast.Subscript) and ast.unparse(st.value.value) == vals_attr
+        ctx.check(plain, "R10a", app, st, "restore assigns the saved entry as it is", "`%s` restores a function of the saved entry (`%s`), not the entry itself: a timed compartment restarted from it has lost who entered when, so the restarted trajectory departs from the original" % (norm(st)[:70], ast.unparse(st.value)[:50]))
+        extra = []
+        for t, pol in guards_of(st, stop=la):
+            tt = ast.unparse(t)
+            if tt == "isinstance(%s, TimedCompartment)" % cv_a:
+                continue
+            if isinstance(t, ast.Compare) and len(t.ops) == 1 and isinstance(t.ops[0], (ast.In, ast.NotIn)) and ast.unparse(t.comparators[0]) == vals_attr:
+                continue
+            extra.append("%s is %s" % (tt, pol))
+        ctx.check(not extra, "R10a", app, st, "restore depends only on the compartment kind and the presence of the key", "`%s` is restored only when %s: under the other outcome the saved state is replaced by something else (spread evenly, dropped ...), so a restart does not continue the original trajectory" % (norm(st)[:60], " and ".join(extra)), stmt_text="restore-guard:" + norm(st)[:60])
+    ctx.require(nrest >= 2, "R10a: fewer restores from self.values in Initialization.apply (%d) than confirmed (2)" % nrest)
     # apply writes index 0 only
     for s, t, k, v in astq.stores(app.node):
         if isinstance(t, ast.Subscript) and isinstance(t.value, ast.Attribute) and t.value.attr in ("vals", "_vals"):
